@@ -27,9 +27,10 @@ const (
 var kinds = []byte{ctrl.FErr, ctrl.FCanceled, ctrl.FDeadline, ctrl.FCancelCtx, ctrl.FCancelAfter, ctrl.FCrash, ctrl.FCommitErr}
 
 type scenario struct {
-	Cfg ctrl.Config
-	Pre [][]int
-	M   []int
+	Cfg     ctrl.Config
+	Pre     [][]int
+	M       []int
+	NetDown bool // scanners flagged N cannot reach the network (from the start)
 }
 
 func (sc scenario) String() string {
@@ -37,25 +38,83 @@ func (sc scenario) String() string {
 	for _, m := range sc.Pre {
 		p += ctrl.LayersString(m) + ";"
 	}
-	return fmt.Sprintf("config=%s pre=[%s] manifest=%s", sc.Cfg, p, ctrl.LayersString(sc.M))
+	n := ""
+	if sc.NetDown {
+		n = " net=down"
+	}
+	return fmt.Sprintf("config=%s%s pre=[%s] manifest=%s", sc.Cfg, n, p, ctrl.LayersString(sc.M))
+}
+
+func hasFlag(cfg ctrl.Config, f byte) bool {
+	for _, s := range cfg {
+		if s.Has(f) {
+			return true
+		}
+	}
+	return false
 }
 
 var namePool = []string{"a", "b", "ab", "c", "rh", "bc", "a1"}
 var verPool = []string{"1", "2", "v1", "c"}
 
-// GenConfig draws 1..4 stub scanners over 1..2 ecosystems, unique by (kind, name).
-func GenConfig(rnd *hx.Rand) ctrl.Config {
+// GenFlags draws the implementation flags of a stub scanner: most have none;
+// N needs the network, C / R implement ConfigurableScanner / RPCScanner, V the
+// deployment has a configuration function for it, X its Configure fails.
+//
+// The flags are a function of (salt, kind, name, version): within one world a
+// scanner version always is the same implementation, whichever configuration
+// lists it (a scanner that changed behaviour without a version bump is outside
+// the property's assumptions).
+func GenFlags(salt uint64, kind byte, name, version string) string {
+	rnd := hx.NewRand(salt ^ uint64(kind)<<40 ^ strHash(name)<<8 ^ strHash(version)<<24 | 1)
+	f := ""
+	if rnd.Chance(1, 6) {
+		f += "N"
+	}
+	switch rnd.Intn(6) {
+	case 0:
+		f += "C"
+	case 1:
+		f += "R"
+	}
+	if rnd.Chance(1, 4) {
+		f += "V"
+	}
+	if strings.ContainsAny(f, "CR") && rnd.Chance(1, 4) {
+		f += "X"
+	}
+	return f
+}
+
+func strHash(s string) uint64 {
+	h := uint64(1469598103934665603)
+	for i := 0; i < len(s); i++ {
+		h = (h ^ uint64(s[i])) * 1099511628211
+	}
+	return h & 0xffff
+}
+
+// GenConfig draws 1..4 stub scanners over 1..2 ecosystems, unique by (kind,
+// name) except that with two ecosystems one scanner is sometimes listed by
+// both (as rpm is by the rhel and the rpm ecosystem).
+func GenConfig(rnd *hx.Rand, salt uint64) ctrl.Config {
 	n := 1 + rnd.Intn(4)
 	necos := 1 + rnd.Intn(2)
 	var cfg ctrl.Config
 	seen := map[string]bool{}
 	for len(cfg) < n {
 		s := ctrl.ScannerSpec{Eco: rnd.Intn(necos), Kind: "pdr"[rnd.Intn(3)], Name: namePool[rnd.Intn(len(namePool))], Version: verPool[rnd.Intn(len(verPool))]}
+		s.Flags = GenFlags(salt, s.Kind, s.Name, s.Version)
 		k := string(s.Kind) + "/" + s.Name
 		if seen[k] {
 			continue
 		}
 		seen[k] = true
+		cfg = append(cfg, s)
+	}
+	if necos == 2 && rnd.Chance(1, 3) {
+		s := cfg[rnd.Intn(len(cfg))]
+		s.Eco = 1 - s.Eco
 		cfg = append(cfg, s)
 	}
 	// ecosystems are numbered densely
@@ -86,7 +145,7 @@ func GenManifest(rnd *hx.Rand, maxLayers int) []int {
 }
 
 func genScenario(rnd *hx.Rand) scenario {
-	sc := scenario{Cfg: GenConfig(rnd), M: GenManifest(rnd, 3)}
+	sc := scenario{Cfg: GenConfig(rnd, rnd.U64()), M: GenManifest(rnd, 3)}
 	for i := rnd.Intn(3); i > 0; i-- {
 		if rnd.Chance(1, 3) {
 			sc.Pre = append(sc.Pre, sc.M)
@@ -94,6 +153,7 @@ func genScenario(rnd *hx.Rand) scenario {
 			sc.Pre = append(sc.Pre, GenManifest(rnd, 3))
 		}
 	}
+	sc.NetDown = hasFlag(sc.Cfg, 'N') && rnd.Chance(1, 2)
 	return sc
 }
 
@@ -107,6 +167,9 @@ type checker struct {
 // setup brings a fresh world to the state before the attempt under test.
 func (c *checker) setup(sc scenario) {
 	c.s.Reset()
+	if sc.NetDown {
+		c.s.Net(true)
+	}
 	c.s.Config(sc.Cfg)
 	for _, m := range sc.Pre {
 		c.s.Index(m, ctrl.Script{}, false)
@@ -153,7 +216,7 @@ func (c *checker) attempt(sc scenario, script ctrl.Script, dead bool) ctrl.Resul
 		}
 	}
 	for _, b := range c.s.CheckStore() {
-		c.r.Fail("", b+": "+wit)
+		c.r.Fail(b.Class, b.Msg+": "+wit)
 	}
 	return res
 }
@@ -178,7 +241,7 @@ func (c *checker) retry(sc scenario, history string, scannedBefore bool, commitE
 		c.r.Fail(cls, "retry after a failure does not complete with the fault-free report: "+wit)
 	}
 	for _, b := range c.s.CheckStore() {
-		c.r.Fail("", b+": "+wit)
+		c.r.Fail(b.Class, b.Msg+": "+wit)
 	}
 	return ok
 }
@@ -206,7 +269,7 @@ func (c *checker) deleteRetry(sc scenario, history string) {
 		c.r.Fail("", "index after DeleteManifests does not complete with the fault-free report: "+wit)
 	}
 	for _, b := range c.s.CheckStore() {
-		c.r.Fail("", b+": "+wit)
+		c.r.Fail(b.Class, b.Msg+": "+wit)
 	}
 }
 
@@ -290,6 +353,29 @@ func (c *checker) known() {
 	}
 }
 
+// knownUnconfigured replays the witness of finding unconfigured-scanner-marked.
+func (c *checker) knownUnconfigured() {
+	sc := scenario{Cfg: ctrl.Config{{Eco: 0, Kind: 'p', Name: "a", Version: "1", Flags: "CX"}, {Eco: 0, Kind: 'd', Name: "b", Version: "1"}}, M: []int{1, 2}}
+	c.setup(sc)
+	res := c.s.Index(sc.M, ctrl.Script{}, false)
+	for _, b := range c.s.CheckStore() {
+		if b.Class == ctrl.FindingUnconfigured && res.ErrClass == "nil" && res.Success && res.Scanned {
+			c.r.KnownSeen(ctrl.FindingUnconfigured, fmt.Sprintf("%s (a's Configure returns an error) => %s ; %s ; scans by a: %d", sc, res.Line(), b.Msg, c.scansBy("a")))
+			return
+		}
+	}
+}
+
+func (c *checker) scansBy(name string) int {
+	n := 0
+	for _, ev := range c.s.W.Scans {
+		if ev.Scanner.Name == name {
+			n++
+		}
+	}
+	return n
+}
+
 type replayFile struct {
 	Seed uint64 `json:"seed"`
 	Tier string `json:"tier"`
@@ -314,6 +400,7 @@ func Run(cfg hx.Config) error {
 	rnd := hx.NewRand(cfg.Seed)
 	c := &checker{r: r, s: ctrl.NewSession(r)}
 	c.known()
+	c.knownUnconfigured()
 
 	nScen := cfg.N(30, 200)
 	nPairs := cfg.N(40, 300)
@@ -362,10 +449,11 @@ func Run(cfg hx.Config) error {
 	cc := &checker{r: r, s: cs}
 	nConc := cfg.N(1000, 8000)
 	for i := 0; i < nConc && !r.Stop() && !cs.Lost; i++ {
-		sc := scenario{Cfg: GenConfig(rnd), M: GenManifest(rnd, 4)}
+		sc := scenario{Cfg: GenConfig(rnd, rnd.U64()), M: GenManifest(rnd, 4)}
 		if rnd.Chance(1, 3) {
 			sc.Pre = append(sc.Pre, GenManifest(rnd, 3))
 		}
+		sc.NetDown = hasFlag(sc.Cfg, 'N') && rnd.Chance(1, 2)
 		script := ctrl.Script{rnd.Intn(110): kinds[rnd.Intn(len(kinds))]}
 		if rnd.Chance(1, 4) {
 			script[rnd.Intn(110)] = kinds[rnd.Intn(len(kinds))]
